@@ -30,7 +30,7 @@ use std::time::{Duration, Instant};
 pub struct IdleEngine;
 
 const KINDS: &[&str] = &["mem-keep", "mem-nosender", "fs", "mem-neversender", "mem-latedrop"];
-const WHENS: &[&str] = &["idle", "after-reload", "queued-events", "after-loads"];
+const WHENS: &[&str] = &["idle", "after-reload", "queued-events", "after-loads", "burst-then-reload"];
 const BURST: usize = 24;
 
 fn parse_run(w: &[&str]) -> Option<(String, String, usize)> {
@@ -38,6 +38,11 @@ fn parse_run(w: &[&str]) -> Option<(String, String, usize)> {
     let k: usize = w[3].parse().ok()?;
     if k == 0 || k > 16 { return None; }
     Some((w[1].to_string(), w[2].to_string(), k))
+}
+
+static STALL: std::sync::atomic::AtomicBool = std::sync::atomic::AtomicBool::new(false);
+fn stall_hook(tag: &'static str) {
+    if tag == "hr-thread-after-ready" { let t0 = Instant::now(); while STALL.load(std::sync::atomic::Ordering::SeqCst) && t0.elapsed() < Duration::from_millis(300) { std::thread::yield_now(); } }
 }
 
 impl Engine for IdleEngine {
@@ -51,6 +56,7 @@ impl Engine for IdleEngine {
         // a LIVE cache whose source released its sender (never stored / dropped later)
         if idx == 13 { return vec!["idle.run mem-neversender idle 1".into()]; }
         if idx == 14 { return vec!["idle.run mem-latedrop after-reload 2".into()]; }
+        if idx == 15 { return vec!["idle.run mem-keep burst-then-reload 1".into()]; }
         if idx == 12 {
             // every combination of the primitive's inputs over {0,1} messages
             let mut l = vec![];
@@ -254,7 +260,28 @@ pub fn child_main(line: &str) {
     // use the caches
     for c in &caches {
         match c {
-            AnyCacheBox::Mem(cache, _) => { for i in 0..4 { let _ = cache.load::<S<0>>(&format!("a{i}")); } cache.hot_reload(); }
+            AnyCacheBox::Mem(cache, src) => {
+                for i in 0..4 { let _ = cache.load::<S<0>>(&format!("a{i}")); }
+                // `burst-then-reload`: a long burst of events is still being taken by the reloader when hot_reload() is called;
+                // afterwards the cache is idle and its thread has to sleep again
+                if when == "burst-then-reload" {
+                    if let Some(tx) = src.sender() {
+                        // a real backlog: the reloader is held right after it noticed the first event (yield hook) while 40000
+                        // events queue up; it is released, and the request is sent once it has worked through a part of them
+                        assets_manager::verif::set_yield_hook(Some(stall_hook));
+                        for _attempt in 0..4 {
+                            STALL.store(true, std::sync::atomic::Ordering::SeqCst);
+                            for i in 0..40000 { let _ = tx.send(OwnedDirEntry::File(format!("a{}", i % 4).into(), "s".into())); }
+                            STALL.store(false, std::sync::atomic::Ordering::SeqCst);
+                            let t0 = Instant::now();
+                            while tx.verif_pending() > 36000 && t0.elapsed() < Duration::from_millis(500) { std::hint::spin_loop(); }
+                            if tx.verif_pending() > 2000 { println!("S run/request-met-a-backlog"); break; }
+                        }
+                    }
+                }
+                cache.hot_reload();
+                assets_manager::verif::set_yield_hook(None);
+            }
             AnyCacheBox::Never(cache, _) => { for i in 0..4 { let _ = cache.load::<S<0>>(&format!("a{i}")); } cache.hot_reload(); }
             AnyCacheBox::Fs(cache, _) => { for i in 0..4 { let _ = cache.load::<String>(&format!("a{i}")); } cache.hot_reload(); }
         }
